@@ -85,6 +85,19 @@ def _snap(pool, net):
             "requests": len(pool._requests)}
 
 
+def _trace_item(name, info):
+    """a trace call, reduced to what both flavours must agree on: the event, the keys of its info, and the exception it reports"""
+    item = [name, sorted(info.keys())]
+    if "exception" in info:
+        e = info["exception"]
+        if isinstance(e, GeneratorExit) or type(e).__name__ in ("CancelledError", "Cancelled"):
+            # a body iterator that the caller stopped reading: a synchronous generator is closed at once, an asynchronous one when
+            # the event loop finalises it - where this event falls among the others is Python's doing, not httpcore's
+            return None
+        item.append(type(e).__name__ + ":" + str(e)[:80] if isinstance(e, BaseException) else "not-an-exception-instance:" + repr(e)[:80])
+    return item
+
+
 def run_sync(sc):
     w = _world(sc, False)
     pool, net = w["pool"], w["net"]
@@ -102,6 +115,8 @@ def run_sync(sc):
             body = st["body"]
             content = iter(body) if isinstance(body, list) else body
             ext = {"timeout": st["timeout"]} if st["timeout"] else {}
+            r["trace"] = []
+            ext["trace"] = lambda name, info, r=r: r["trace"].append(_trace_item(name, info)) if _trace_item(name, info) else None
             headers = [("Transfer-Encoding", "chunked")] if isinstance(body, list) else None
             with pool.stream("POST" if body is not None else "GET", w["url"](st["origin"], st["tok"]), content=content, extensions=ext,
                              headers=headers) as resp:
@@ -151,6 +166,12 @@ def run_async(sc):
                 body = st["body"]
                 content = agen(body) if isinstance(body, list) else body
                 ext = {"timeout": st["timeout"]} if st["timeout"] else {}
+                r["trace"] = []
+
+                async def tracer(name, info, r=r):
+                    if _trace_item(name, info):
+                        r["trace"].append(_trace_item(name, info))
+                ext["trace"] = tracer
                 headers = [("Transfer-Encoding", "chunked")] if isinstance(body, list) else None
                 async with pool.stream("POST" if body is not None else "GET", w["url"](st["origin"], st["tok"]), content=content, extensions=ext,
                                        headers=headers) as resp:
